@@ -1440,8 +1440,18 @@ class Simulation:
             if hasattr(self, name):
                 delattr(self, name)
 
-        # Return gradient from weighted residual `vector`.
-        return self.gradient
+        # Get gradient from weighted residual `vector`.
+        jtvec = self.gradient
+
+        # Reset misfit, gradient, and back-propagated fields: The stored
+        # residual was replaced by `vector`, they are not the ones of the data.
+        self._misfit = None
+        self._gradient = None
+        for name in ['_dict_bfield', '_dict_bfield_info']:
+            if hasattr(self, name):
+                delattr(self, name)
+
+        return jtvec
 
     # UTILS
     @property
